@@ -59,6 +59,19 @@ def run(ctx):
         for tn in targets:
             o = att(lambda: Output(1000, address=a, network=tn))
             cases.append(('dest_script %s %s' % (tn, a), hexp(o.lock_script) if o is not None else 'none', True))
+            # the address together with its OWN payload (a redundant, consistent argument): still the script of the address, still
+            # refused on another network
+            ap = att(lambda: Address.parse(a))
+            if ap is not None and ap.hash_bytes:
+                ctx.count('address+own-payload')
+                o3 = att(lambda: Output(1000, address=a, public_hash=ap.hash_bytes, network=tn))
+                cases.append(('dest_script %s %s' % (tn, a), hexp(o3.lock_script) if o3 is not None else 'none', True))
+                if tn == net:
+                    t3 = att(lambda: Transaction(network=tn))
+                    r3 = att(lambda: t3.add_output(1000, a, public_hash=ap.hash_bytes)) if t3 is not None else None
+                    cases.append(('dest_script %s %s' % (tn, a), hexp(t3.outputs[-1].lock_script) if r3 is not None and t3.outputs else 'none', True))
+                    if o3 is not None and o3.address != a:
+                        ctx.violation('an output built from an address and its own payload shows another address', {'op': 'dest_script %s %s' % (tn, a), 'observed': o3.address})
             if tn == net:
                 ao = att(lambda: Address.parse(a))
                 if ao is not None:
